@@ -121,6 +121,7 @@ type FuncContract struct {
 	HasAssign bool // an assigns clause was given (possibly empty = pure)
 	Locks     []Expr
 	LockTexts []string
+	AnyLocks  []string // "T.mu": monitors of unnamed objects of type T
 	Inline    bool
 	Trusted   bool
 	Effects   []string
@@ -523,6 +524,11 @@ func ParseContracts(path string) (*Contracts, error) {
 		case "locks":
 			for _, a := range splitTop(rest, ',') {
 				a = strings.TrimSpace(a)
+				if strings.HasPrefix(a, "any ") {
+					// "any T.mu": a monitor of some object of type T that callers cannot name
+					curF.AnyLocks = append(curF.AnyLocks, strings.TrimSpace(strings.TrimPrefix(a, "any ")))
+					continue
+				}
 				e, err := ParseExpr(a)
 				if err != nil {
 					return fmt.Errorf("line %d: %v", lineNo, err)
